@@ -85,6 +85,8 @@ func runC05(a *A) {
 	c05R7(a, r)
 	c05R8(a, r)
 	c05R9(a, r)
+	// R10: the reader cannot spin in the packet decoder (retry loops) nor bypass its hand-off
+	readerForwardsAll(a, "C05-R10", r)
 }
 
 func libPkgs(w *World) []*ssa.Package { return []*ssa.Package{w.Root, w.Repl} }
